@@ -185,8 +185,9 @@ def cell_models(prog, f, body, comb, refname, name):
     These operators touch the layer values of a cell only through comparisons (`<`, `==`, `min`, `max`, `index`, `sort`)
     and NaN tests, on Python numbers (the cell tuples hold `.item()` values).  Their result is therefore a function of the
     ordering and NaN-ness of the values alone: the loop body is folded (consteval - a pure-Python subset, no library code
-    is run) for every cell of 1..3 layers over the levels 0 < 1 < 2 and NaN - every weak ordering of up to three layers,
-    with and without NaN - and must append exactly the operator's definition each time.  Returns (True, '') /
+    is run) for every cell of 1..3 layers over the levels -inf < 0 < 1 < 2 < +inf and NaN - every weak ordering of up to
+    three layers, with and without NaN, with and without infinities (a NaN test by `isnan(sum(cell))` is refuted by a cell
+    holding +inf and -inf) - and must append exactly the operator's definition each time.  Returns (True, '') /
     (False, counterexample, nan_case) / (None, why not evaluable)."""
     from itertools import product
     from ..consteval import CannotFold, Folder, _Continue
@@ -217,7 +218,7 @@ def cell_models(prog, f, body, comb, refname, name):
         return (a != a and b != b) or a == b
     try:
         for n_ in (1, 2, 3):
-            for tup in product((0.0, 1.0, 2.0, NAN), repeat=n_):
+            for tup in product((0.0, 1.0, 2.0, NAN, float('inf'), float('-inf')), repeat=n_):
                 refs = [1] if name in FREQ else (list(range(1, n_ + 1)) if name == 'rank' else [None])
                 for ref in refs:
                     got = None
